@@ -960,12 +960,21 @@ class Node():
         :type my_children: list
 
         :raises TypeError: if the given children parameter is not a list.
+        :raises GenerationError: if any of the given children is not valid \
+            in its position (this node is then left unmodified).
         '''
         if isinstance(my_children, list):
-            self.pop_all_children()  # First remove existing children if any
+            # First remove existing children if any
+            old_children = self.pop_all_children()
             self._children = ChildrenList(self, self._validate_child,
                                           self._children_valid_format)
-            self._children.extend(my_children)
+            try:
+                self._children.extend(my_children)
+            except GenerationError:
+                # The new children are not valid (and none of them has been
+                # added), put the original ones back.
+                self._children.extend(old_children)
+                raise
         else:
             raise TypeError("The 'my_children' parameter of the node.children"
                             " setter must be a list.")
